@@ -1,3 +1,4 @@
-From Coq Require Import ZArith List.
-From PV Require Import Base.U64 E3.E3_Run C07.C07_Model C07.C07_SPSC_Model C07.C07_MPMC_Model C07.C07_Batch_Model.
-Lemma placeholder : True. Proof. exact I. Qed.
+(* C07_Proofs.v — collects the proof files of C07 (target of the check's coq_make). *)
+From PV Require Import Base.U64 E3.E3_Run C07.C07_Model C07.C07_Arith C07.C07_Lists.
+From PV Require Import C07.C07_SPSC_Model C07.C07_MPMC_Model C07.C07_Batch_Model.
+From PV Require Export C07.C07_SPSC_Proofs.
